@@ -383,44 +383,48 @@ func TestVerifC13MergeChart(t *testing.T) {
 		if err != nil {
 			t.Fatalf("%s: %v", desc, err)
 		}
-		var cd chartdata
-		if err := json.Unmarshal(out, &cd); err != nil {
-			t.Fatalf("%s: chart object: %v", desc, err)
-		}
-		var inRange []telemetry.Report
-		for d := lo; d <= hi; d++ {
-			inRange = append(inRange, stored[day0.AddDate(0, 0, d).Format("2006-01-02")]...)
-		}
-		if cd.NumReports != len(inRange) {
-			t.Fatalf("%s: NumReports = %d, the merged reports in the range number %d", desc, cd.NumReports, len(inRange))
-		}
-		if cd.DateRange != [2]string{start, end} {
-			t.Fatalf("%s: DateRange = %v", desc, cd.DateRange)
-		}
-		model := c13Model(ucfg, inRange)
-		seenKey := map[c13Key]bool{}
-		for _, p := range cd.Programs {
-			for _, c := range p.Charts {
-				if c.Type != "partition" {
-					continue
-				}
-				for _, dt := range c.Data {
-					k := c13Key{p.Name, c.Name, dt.Key}
-					if seenKey[k] {
-						t.Fatalf("%s: chart %s of %s lists key %q twice", desc, c.Name, p.Name, dt.Key)
+		verifyChart := func(out []byte, desc string) []telemetry.Report {
+			var cd chartdata
+			if err := json.Unmarshal(out, &cd); err != nil {
+				t.Fatalf("%s: chart object: %v", desc, err)
+			}
+			var inRange []telemetry.Report
+			for d := lo; d <= hi; d++ {
+				inRange = append(inRange, stored[day0.AddDate(0, 0, d).Format("2006-01-02")]...)
+			}
+			if cd.NumReports != len(inRange) {
+				t.Fatalf("%s: NumReports = %d, the merged reports in the range number %d", desc, cd.NumReports, len(inRange))
+			}
+			if cd.DateRange != [2]string{start, end} {
+				t.Fatalf("%s: DateRange = %v", desc, cd.DateRange)
+			}
+			model := c13Model(ucfg, inRange)
+			seenKey := map[c13Key]bool{}
+			for _, p := range cd.Programs {
+				for _, c := range p.Charts {
+					if c.Type != "partition" {
+						continue
 					}
-					seenKey[k] = true
-					if want := float64(len(model[k])); dt.Value != want {
-						t.Fatalf("%s: program %s chart %s key %q = %v; %v distinct report IDs in the range carry it", desc, p.Name, c.Name, dt.Key, dt.Value, want)
+					for _, dt := range c.Data {
+						k := c13Key{p.Name, c.Name, dt.Key}
+						if seenKey[k] {
+							t.Fatalf("%s: chart %s of %s lists key %q twice", desc, c.Name, p.Name, dt.Key)
+						}
+						seenKey[k] = true
+						if want := float64(len(model[k])); dt.Value != want {
+							t.Fatalf("%s: program %s chart %s key %q = %v; %v distinct report IDs in the range carry it", desc, p.Name, c.Name, dt.Key, dt.Value, want)
+						}
 					}
 				}
 			}
-		}
-		for k, ids := range model {
-			if len(ids) > 0 && !seenKey[k] {
-				t.Fatalf("%s: program %s chart %s key %q is carried by %d report IDs but is not charted", desc, k.prog, k.chart, k.key, len(ids))
+			for k, ids := range model {
+				if len(ids) > 0 && !seenKey[k] {
+					t.Fatalf("%s: program %s chart %s key %q is carried by %d report IDs but is not charted", desc, k.prog, k.chart, k.key, len(ids))
+				}
 			}
+			return inRange
 		}
+		inRange := verifyChart(out, desc)
 		// determinism: a second run, and permutations of the report slice
 		rec2 := httptest.NewRecorder()
 		handleChart(env.tcfg, env.api).ServeHTTP(rec2, httptest.NewRequest("GET", url, nil))
@@ -440,7 +444,38 @@ func TestVerifC13MergeChart(t *testing.T) {
 		if !bytes.Equal(ref, got) {
 			t.Fatalf("%s: chart output depends on the order of the reports", desc)
 		}
-		vstats.Case(desc, dupX || bigLine || hi > lo, fmt.Sprintf("bigLine:%v", bigLine), fmt.Sprintf("dupX:%v", dupX), fmt.Sprintf("multiDay:%v", hi > lo),
+		// The stored reports of a charted day change afterwards (an object is deleted), the day is merged again and
+		// the range charted again in the same process: the second chart describes the new set.
+		rechart := ""
+		if rapid.IntRange(0, 2).Draw(t, "changeAfterChart") == 0 {
+			var days []string
+			for d := lo; d <= hi; d++ {
+				if day := day0.AddDate(0, 0, d).Format("2006-01-02"); len(stored[day]) > 0 {
+					days = append(days, day)
+				}
+			}
+			if len(days) > 0 {
+				day := days[rapid.IntRange(0, len(days)-1).Draw(t, "rechartDay")]
+				i := rapid.IntRange(0, len(stored[day])-1).Draw(t, "rechartReport")
+				if err := os.Remove(filepath.Join(env.root, "uploaded", fmt.Sprintf("%s/%g.json", day, stored[day][i].X))); err != nil {
+					t.Fatal(err)
+				}
+				stored[day] = append(stored[day][:i:i], stored[day][i+1:]...)
+				mergeAndVerify(day)
+				rec3 := httptest.NewRecorder()
+				handleChart(env.tcfg, env.api).ServeHTTP(rec3, httptest.NewRequest("GET", url, nil))
+				if rec3.Code != 200 {
+					t.Fatalf("%s: second chart after a re-merge: status %d %s", desc, rec3.Code, rec3.Body.String())
+				}
+				out3, err := os.ReadFile(chartPath)
+				if err != nil {
+					t.Fatal(err)
+				}
+				verifyChart(out3, desc+" [charted again after "+day+" lost a report and was merged again]")
+				rechart = "afterDeletion"
+			}
+		}
+		vstats.Case(desc, dupX || bigLine || hi > lo, "rechart:"+rechart, fmt.Sprintf("bigLine:%v", bigLine), fmt.Sprintf("dupX:%v", dupX), fmt.Sprintf("multiDay:%v", hi > lo),
 			fmt.Sprintf("crossYear:%v", start[:4] != end[:4]), fmt.Sprintf("longRange:%v", hi-lo > 300), "remerged:"+remerged)
 	})
 }
